@@ -228,6 +228,33 @@ def _layout_ob(c: ClassInfo, inst: str, rv: TensorV, loc: str) -> Ob:
     return ok("R4l", c.qualname, linst, fmt_all(rv.lay), loc)
 
 
+def _axis_identity_obs(c: ClassInfo, inst: str, rv: TensorV, f_d: Dim, loc: str) -> list[Ob]:
+    """R4x: axis 0 of a layer's (F, B, Ko) / (F, 1, Ko) result *is* the fold axis and axis 1 the batch
+    axis -- not merely axes of those sizes.  Decided only where the element order was derived: a
+    result axis that a view re-read across atom boundaries (``<misaligned ..>``), a fold axis that
+    carries anything but the fold atom, or a batch axis that carries the fold atom, is reported."""
+    from ..layout import base_label, is_misaligned, single_symbol
+
+    if rv.lay is None or len(rv.lay) < 2:
+        return []
+    xinst = inst.replace("[", "-axes[", 1) if "[" in inst else inst + "-axes"
+    fsym = single_symbol(f_d)
+    l0, l1 = rv.lay[0], rv.lay[1]
+    bad = None
+    if is_misaligned(l0) or is_misaligned(l1):
+        which = l0 if is_misaligned(l0) else l1
+        bad = f"the result is a {which[0][0][1:-1]} whose axis boundaries fall inside the source axes: entry (f, b) holds the value of another fold / batch row whenever both sizes exceed 1"  # type: ignore[index]
+    elif fsym is not None and l0 is not None and l0 != () and [base_label(l) for l, _ in l0] != [fsym]:
+        bad = f"axis 0 is laid out {fmt_all([l0])[1:-1]}, not as the fold axis [{fsym}]"
+    elif fsym is not None and l1 is not None and any(base_label(l) == fsym for l, _ in l1):
+        bad = f"axis 1 (batch) is laid out {fmt_all([l1])[1:-1]}: it contains the fold axis"
+    if bad:
+        return [viol("R4x", c.qualname, xinst, bad + f"; result layout {fmt_all(rv.lay)}", loc)]
+    if l0 is None and l1 is None:
+        return []
+    return [ok("R4x", c.qualname, xinst, f"fold / batch axes keep their identity: {fmt_all(rv.lay[:2])}", loc)]
+
+
 def _inner_layout_obs(c: ClassInfo, inst: str, rv: TensorV, pairings: list, ar: Dim, loc: str, has_params: bool = True) -> list[Ob]:
     """element-order contracts of inner layers (arity > 1):
     * the unit axis of a layer that combines the units of its inputs lists input 0 major
@@ -440,7 +467,7 @@ def _one_layer_method(ctx: Ctx, c: ClassInfo, obj: ObjV, st0: State, meth: str, 
         args: list[V] = [x_in]
         want: Any = (f_d, B, ko_d)
     elif kind == "input":
-        args = [TensorV((f_d, B, ki_d))]  # num_input_units == number of variables of an input layer
+        args = [fresh_tensor((f_d, B, ki_d))]  # num_input_units == number of variables of an input layer
         want = (f_d, B, ko_d)
     elif kind == "const":
         args = [IntV(B)]
@@ -494,6 +521,7 @@ def _one_layer_method(ctx: Ctx, c: ClassInfo, obj: ObjV, st0: State, meth: str, 
             got = s2.norm_shape(rv.shape)
             if got == w:
                 out.append(ok(rule, c.qualname, inst, f"{fmt_shape(got)}{cond}", fi.loc))
+                out.extend(_axis_identity_obs(c, inst, rv, f_d, fi.loc))
                 if kind == "inner" and meth == "forward":
                     out.extend(_inner_layout_obs(c, inst, rv, it.pairings, ar_d, fi.loc, any(isinstance(v, ParamV) for v in h.values())))  # type: ignore[attr-defined]
             else:
